@@ -10,7 +10,7 @@ use vbase::gens::{self, DocParams};
 use vbase::refjson::{self, accept, show_bytes, Accept, Kind};
 use vbase::{ensure, fail};
 
-pub const RULE: &str = "cases are byte strings: (a) every sequence of <=L tokens over a 14-token alphabet (exhaustive), (b) every string of <=6 chars over {-019.eE+} placed as root, array element, object value and skipped member (exhaustive), (c) generated documents and one random mutation of each, (d) every truncation / per-position substitution / deletion of a set of generated documents. Each case is fed to every route (Value by from_slice/from_str/from_reader — the reader also delivering 1, 3, 7 or a growing number of bytes per call with ErrorKind::Interrupted in between —, Value embedded in a tuple and in a deny_unknown_fields struct, Option<Value> behind whitespace, serde_json::Value as target, String/f64/bool/() scalar targets, IgnoredAny, LazyValue, OwnedLazyValue, ignored struct fields, Deserializer::from_json over &[u8]/Bytes/FastStr, second document of a stream) and the accept/reject verdict is compared with the independent recogniser (full = utf8+grammar+scalars+finite, skip = utf8+grammar). Non-trivial = the reference rejects at offset >= 2 or accepts a text with >= 3 tokens; distinct by input bytes.";
+pub const RULE: &str = "cases are byte strings: (a) every sequence of <=L tokens over a 14-token alphabet (exhaustive), (b) every string of <=6 chars over {-019.eE+} placed as root, array element, object value and skipped member (exhaustive), (c) generated documents and one random mutation of each, (d) every truncation / per-position substitution / deletion of a set of generated documents, (e) parse histories: 2..5 well-formed documents of up to 400 KB in seven shapes parsed into Value one after the other on a fresh thread, each must be accepted with the right member count. Each case is fed to every route (Value by from_slice/from_str/from_reader — the reader also delivering 1, 3, 7 or a growing number of bytes per call with ErrorKind::Interrupted in between —, Value embedded in a tuple and in a deny_unknown_fields struct, Option<Value> behind whitespace, serde_json::Value as target, String/f64/bool/() scalar targets, IgnoredAny, LazyValue, OwnedLazyValue, ignored struct fields, Deserializer::from_json over &[u8]/Bytes/FastStr, second document of a stream) and the accept/reject verdict is compared with the independent recogniser (full = utf8+grammar+scalars+finite, skip = utf8+grammar). Non-trivial = the reference rejects at offset >= 2 or accepts a text with >= 3 tokens; distinct by input bytes.";
 pub const ASSUMPTIONS: &[&str] = &[
     "refjson recogniser is correct (self-tested against serde_json on every run)",
     "nesting depth of generated inputs stays far below any implementation limit (deep nesting is C01's domain)",
@@ -298,6 +298,146 @@ fn field_a_is_u8_once(w: &[u8]) -> bool {
     }
 }
 
+/// one document of a parse history: (text, number of members of the root container)
+fn history_doc(kind: u8, size: usize) -> (Vec<u8>, usize) {
+    let mut d = Vec::with_capacity(size + 16);
+    let mut n = 0usize;
+    match kind % 7 {
+        0 => {
+            d.extend_from_slice(b"[\"");
+            d.resize(d.len() + size, b'a');
+            d.extend_from_slice(b"\"]");
+            n = 1;
+        }
+        1 => {
+            d.push(b'[');
+            while d.len() < size {
+                if n > 0 {
+                    d.push(b',');
+                }
+                d.push(b'0' + (n % 10) as u8);
+                n += 1;
+            }
+            d.push(b']');
+        }
+        2 => {
+            d.push(b'[');
+            while d.len() < size {
+                if n > 0 {
+                    d.push(b',');
+                }
+                d.extend_from_slice(if n % 2 == 0 { b"[]" } else { b"{}" });
+                n += 1;
+            }
+            d.push(b']');
+        }
+        3 => {
+            d.push(b'{');
+            while d.len() < size {
+                if n > 0 {
+                    d.push(b',');
+                }
+                d.extend_from_slice(b"\"\":");
+                d.push(b'0' + (n % 10) as u8);
+                n += 1;
+            }
+            d.push(b'}');
+        }
+        4 => {
+            d.push(b'[');
+            while d.len() < size {
+                if n > 0 {
+                    d.push(b',');
+                }
+                d.extend_from_slice([&b"true"[..], b"null", b"\"\"", b"false", b"-0"][n % 5]);
+                n += 1;
+            }
+            d.push(b']');
+        }
+        5 => {
+            d.extend_from_slice(b"[\n");
+            while d.len() < size {
+                if n > 0 {
+                    d.extend_from_slice(b",\n    ");
+                }
+                d.extend_from_slice(format!("{}", n * 37 % 1000).as_bytes());
+                n += 1;
+            }
+            d.extend_from_slice(b"\n]");
+        }
+        _ => {
+            // nested pairs: [[0,[1]],[0,[1]],…]
+            d.push(b'[');
+            while d.len() < size {
+                if n > 0 {
+                    d.push(b',');
+                }
+                d.extend_from_slice(b"[0,[1]]");
+                n += 1;
+            }
+            d.push(b']');
+        }
+    }
+    (d, n)
+}
+
+/// sub-check `history`: acceptance must not depend on what the same thread parsed before. A case is a
+/// sequence of (kind, size, route) triples; the documents are well-formed by construction (and confirmed by
+/// the reference recogniser) and are parsed one after the other on a fresh thread, so that the thread-local
+/// state of the DOM parser is a function of the case alone. Every parse must succeed and report the right
+/// number of root members.
+pub fn oracle_history(case: &[u8], obs: &mut Obs) -> Result<(), Fail> {
+    let steps: Vec<(u8, usize, u8)> = case.chunks_exact(5).map(|c| (c[0], 1 + (c[1] as usize | (c[2] as usize) << 8 | (c[3] as usize) << 16) % 400_000, c[4])).collect();
+    if steps.len() < 2 {
+        return Ok(());
+    }
+    obs.nt();
+    let growing = steps.windows(2).any(|w| w[1].1 > w[0].1 && w[0].1 >= 8192);
+    obs.label(if growing { "history-growing-past-8k" } else { "history-other" });
+    let docs: Vec<(Vec<u8>, usize)> = steps.iter().map(|&(k, sz, _)| history_doc(k, sz)).collect();
+    for (d, _) in &docs {
+        ensure!(accept(d).full(), "C02/harness/history-doc-invalid".to_string(), "generated history document is not well-formed: {}", show_bytes(d, 80));
+    }
+    let steps2 = steps.clone();
+    let r = std::thread::Builder::new()
+        .stack_size(8 << 20)
+        .spawn(move || -> Result<(), (usize, String)> {
+            for (i, ((d, n), &(_, _, route))) in docs.iter().zip(steps2.iter()).enumerate() {
+                let text = std::str::from_utf8(d).unwrap();
+                let v: Result<Value, sonic_rs::Error> = match route % 4 {
+                    0 => sonic_rs::from_slice(d),
+                    1 => sonic_rs::from_str(text),
+                    2 => sonic_rs::from_reader(&d[..]),
+                    _ => {
+                        let mut de = Deserializer::from_json(text);
+                        Value::deserialize(&mut de)
+                    }
+                };
+                match v {
+                    Err(e) => return Err((i, format!("rejected: {e}"))),
+                    Ok(v) => {
+                        use sonic_rs::{JsonContainerTrait, JsonValueTrait};
+                        let len = if v.is_object() { v.as_object().map(|o| o.len()) } else { v.as_array().map(|a| a.len()) };
+                        if len != Some(*n) {
+                            return Err((i, format!("root has {len:?} members, expected {n}")));
+                        }
+                    }
+                }
+            }
+            Ok(())
+        })
+        .unwrap()
+        .join();
+    match r {
+        Ok(Ok(())) => Ok(()),
+        Ok(Err((i, why))) => {
+            let hist: Vec<String> = steps.iter().map(|(k, s, r)| format!("(kind {} size {} route {})", k % 7, s, r % 4)).collect();
+            fail!("C02/full/rejects-valid/after-history".to_string(), "document {i} of the history [{}] on one thread: {why}", hist.join(", "));
+        }
+        Err(_) => fail!("C02/history/panic".to_string(), "a parse of the history panicked"),
+    }
+}
+
 pub fn subs() -> Vec<Sub<'static>> {
     vec![
         Sub { name: "tokens", oracle: &oracle, minimise_bytes: true },
@@ -307,6 +447,7 @@ pub fn subs() -> Vec<Sub<'static>> {
         Sub { name: "long-numbers", oracle: &oracle, minimise_bytes: true },
         Sub { name: "many-small", oracle: &oracle, minimise_bytes: false },
         Sub { name: "large-utf8", oracle: &oracle, minimise_bytes: false },
+        Sub { name: "history", oracle: &oracle_history, minimise_bytes: false },
     ]
 }
 
@@ -411,6 +552,27 @@ pub fn run(ctx: &Ctx) {
             d[at] = *src.pick(&[0x80u8, 0xff, b'a', 0xc3, 0xe4]);
         }
         d
+    });
+
+    // (c4) parse histories on one thread (thread-local buffers of the DOM parser keep their size between
+    // parses): 2..5 documents of 1 B..400 KB in seven shapes (one long string, dense single-digit array, dense
+    // empty containers, dense object, mixed scalars, pretty-printed, nested pairs); sizes climb a ladder in
+    // half of the cases
+    ctx.search(&sub("history"), "history", ctx.n(1_600, 30_000), 32, &|src: &mut Src| {
+        let n = 2 + src.below(4);
+        let mut out = Vec::new();
+        let mut size = 1 + src.below(12_000);
+        let ladder = src.chance(128);
+        for _ in 0..n {
+            let kind = src.below(7) as u8;
+            out.push(kind);
+            let sz = (size - 1).min(399_999);
+            out.extend_from_slice(&[(sz & 0xff) as u8, (sz >> 8 & 0xff) as u8, (sz >> 16) as u8]);
+            out.push(src.below(4) as u8);
+            let cap = *src.pick(&[600usize, 9_000, 40_000, 400_000]);
+            size = if ladder { size + 1 + src.below(size.max(2000) * 2) } else { 1 + src.below(cap) };
+        }
+        out
     });
 
     // (d) systematic mutation sweep over generated documents
